@@ -48,6 +48,9 @@ package prefix
 //@ define lacksBytes(minLen int, offset int, maxLen int, n int) bool = n < minLen || (n < offset + minTagLength && n < maxLen)
 //@ func (t Transport) tryFindReg(data *bytes.Buffer, originalDst net.IP, regManager transports.RegManager) (transports.Registration, error)
 //@   requires data != nil && regManager != nil && t.TagObfuscator != nil
+// representation invariant of the prefix table (true of every built-in prefix; prefixes cannot be loaded from a file
+// yet - tryParsePrefixes is a stub - and a loader would have to establish it): the tag lies inside the minimum length
+//@   requires @SAFETY: forall k PrefixID :: k in t.SupportedPrefixes ==> 0 <= t.SupportedPrefixes[k].Offset && t.SupportedPrefixes[k].Offset + minTagLength <= t.SupportedPrefixes[k].MinLen
 //@   ensures @C02: result1 == nil ==> (exists s string :: s in validRegs(regManager, originalDst) && result0 == validRegs(regManager, originalDst)[s]) && regTransport(result0) == 4
 //@   ensures @C02 @C03: result1 != nil ==> result0 == nil && bufStr(data) == old(bufStr(data))
 // C02 "a first flight produced for a different prefix than the one registered is never accepted": when the matched
@@ -66,6 +69,9 @@ package prefix
 //@   ensures @C04: result1 == transports.ErrTryAgain && old(len(bufStr(data))) > 0 ==> (exists k PrefixID :: k in t.SupportedPrefixes && lacksBytes(t.SupportedPrefixes[k].MinLen, t.SupportedPrefixes[k].Offset, t.SupportedPrefixes[k].MaxLen, old(len(bufStr(data)))))
 // C03: the connection is not touched (no write, close, read, deadline change): the frame is the buffer only
 //@   assigns bufStr(data), obj(data)
+// C11 "first-flight bytes arriving on phantom connections ... never panics": every slice of the received bytes is in range
+//@   ensures @C11: true
+//@   checks bounds
 //@ loop 1:
 //@   invariant data != nil && regManager != nil && t.TagObfuscator != nil && bufStr(data) == old(bufStr(data)) && (err == transports.ErrNotTransport || err == transports.ErrTryAgain)
 //@   invariant err == transports.ErrTryAgain ==> (exists k PrefixID :: k in t.SupportedPrefixes && lacksBytes(t.SupportedPrefixes[k].MinLen, t.SupportedPrefixes[k].Offset, t.SupportedPrefixes[k].MaxLen, len(bufStr(data))))
@@ -78,6 +84,8 @@ package prefix
 //@   ensures @C03: old(len(bufStr(data))) < minTagLength ==> result2 == transports.ErrTryAgain
 //@   ensures @C03: result2 != nil ==> result2 == transports.ErrTryAgain || result2 == transports.ErrNotTransport || result2 == ErrIncorrectPrefix || result2 == ErrIncorrectTransport
 //@   assigns bufStr(data), obj(data)
+//@   ensures @C11: true
+//@   checks bounds
 
 // C01 (transport identification secret, prefix): same label "PrefixTransportHMACString" on both sides.
 //@ import io "io"
